@@ -16,6 +16,8 @@ From Tx Require Model.OpsC12.
 From Tx Require Model.OpsC04.
 From Tx Require Model.OpsC06.
 From Tx Require Model.OpsC14.
+From Tx Require Model.OpsC07.
+From Tx Require Model.OpsC19.
 Local Open Scope Z_scope.
 
 Definition run_op (s : sexp) : sexp :=
@@ -37,6 +39,8 @@ Definition run_op (s : sexp) : sexp :=
       | 4 => OpsC04.op args
       | 6 => OpsC06.op args
       | 14 => OpsC14.op args
+      | 7 => OpsC07.op args
+      | 19 => OpsC19.op args
       | _ => bad
       end
   | _ => bad
